@@ -58,7 +58,19 @@ fn gen_cfg(ctx: &Ctx, rng: &mut Rng, text_entries: bool) -> (Xcfg, comm::ScriptI
         stop_when_done: true,
         kill_after: false,
         eintr_permille: 0,
+        route: comm::Route::default(),
     };
+    let mut cfg = cfg;
+    // the same exchange said differently: through a copy of the command, with a command appended to a pipeline that
+    // already has its input, or with a time limit so far away that it never matters (30 days ... 50 years: beyond what
+    // one poll() call can be asked to wait)
+    cfg.route.via_clone = rng.chance(250);
+    cfg.route.late_stage = pipeline && rng.chance(400);
+    if matches!(entry, Entry::Start | Entry::ExecCommunicate | Entry::PipelineCommunicate) && rng.chance(250) {
+        let far = *rng.pick(&[30u64 * 86400, 365 * 86400, 50 * 365 * 86400]);
+        cfg.chain = vec![comm::Limit { size: None, time: Some(std::time::Duration::from_secs(far)) }];
+        cfg.route.time_first = rng.chance(500);
+    }
     (cfg, si)
 }
 
@@ -72,6 +84,8 @@ fn describe(cfg: &Xcfg, si: &comm::ScriptInfo) -> J {
         .set("pipe_capacity", J::i(cfg.cap))
         .set("short_rw_permille", J::i(cfg.short_rw as i64))
         .set("delay_us", J::i(cfg.delay_us))
+        .set("route", J::s(&format!("{:?}", cfg.route)))
+        .set("limits", J::s(&format!("{:?}", cfg.chain)))
 }
 
 fn readiness_signature(evs: &[Ev]) -> u64 {
@@ -146,6 +160,10 @@ fn judge_c02(ctx: &mut Ctx, cfg: &Xcfg, si: &comm::ScriptInfo, x: &Xres) {
         // the second command copies its input and appends [1:len:hash of what it saw]
         let t = format!("[1:{}:{:016x}]", exp_out.len(), crate::common::fnv(&exp_out));
         exp_out.extend_from_slice(t.as_bytes());
+        if cfg.route.late_stage {
+            let t = format!("[2:{}:{:016x}]", exp_out.len(), crate::common::fnv(&exp_out));
+            exp_out.extend_from_slice(t.as_bytes());
+        }
     }
     let exp_err = pat_vec(cfg.seed, 2, 0, wrote2 as usize);
     let text = r.out.is_none() && r.err.is_none() && (r.out_str.is_some() || r.err_str.is_some() || matches!(cfg.entry, Entry::CommunicateStr | Entry::ReadString));
@@ -404,6 +422,7 @@ pub fn run(ctx: &mut Ctx, which: Which) {
                 stop_when_done: true,
                 kill_after: true,
                 eintr_permille: 0,
+                route: comm::Route::default(),
             };
             let si = comm::ScriptInfo { script, reads_all: piped_in, family: "closes-streams-then-lingers", ..Default::default() };
             let x = comm::exchange(ctx, &cfg);
@@ -460,6 +479,7 @@ pub fn run(ctx: &mut Ctx, which: Which) {
                 stop_when_done: true,
                 kill_after: false,
         eintr_permille: 0,
+        route: comm::Route::default(),
             };
             let x = comm::exchange(ctx, &cfg);
             ctx.count("exchanges", 1);
@@ -591,6 +611,7 @@ pub fn run(ctx: &mut Ctx, which: Which) {
                 stop_when_done: true,
                 kill_after: false,
         eintr_permille: 0,
+        route: comm::Route::default(),
             };
             let si = comm::ScriptInfo { script: cfg.script.clone(), reads_all: true, family: "text-and-special-bytes", ..Default::default() };
             let x = comm::exchange(ctx, &cfg);
